@@ -694,6 +694,8 @@ THEOREMS["C16"] = ["Pest.C16." + t for t in (
 _AM = "Pest.AllModes."
 THEOREMS["C06"] += [_AM + t for t in "opt_interp_tree_wf opt_gen_tree_wf gNameOK_orig opt_interp_names opt_gen_names opt_interp_no_skip_pair opt_interp_root_single opt_gen_root_single".split()]
 THEOREMS["C07"] += [_AM + t for t in "opt_parse_terminates opt_interp_terminates opt_interp_answers opt_gen_answers opt_parse_total".split()]
+THEOREMS["C06"] += [_AM + "opt_interp_tags'", _AM + "opt_gen_tags'", "Pest.OptS.optimizer_keeps_tags", "Pest.OptS.optimize_keeps_kind"]
+THEOREMS["C07"] += [_AM + "opt_parse_total'", "Pest.OptS.optimizer_keeps_genShape", "Pest.OptS.optimizer_keeps_callable"]
 THEOREMS["C13"] += [_AM + t for t in "opt_knownNames opt_failure_names_known opt_gen_failure_names_known".split()]
 THEOREMS["C16"] += [_AM + t for t in "opt_soiFree opt_parse_shift opt_gen_parse_shift opt_no_lookbehind opt_gen_no_lookbehind".split()]
 THEOREMS["C02"] += [_AM + t for t in "opt_same_verdict_and_tree plain_vs_opt_interp opt_interp_run_agrees".split()]
